@@ -164,6 +164,27 @@
   clippy::option_map_unit_fn,
 )]
 
+// Verification hooks. With feature "rustdds_verif" off these expand to nothing.
+#[cfg(feature = "rustdds_verif")]
+#[allow(unused_macros)]
+macro_rules! verif_yield {
+  ($site:expr) => {
+    $crate::verif::sched::yield_at($site)
+  };
+}
+#[cfg(not(feature = "rustdds_verif"))]
+#[allow(unused_macros)]
+macro_rules! verif_yield {
+  ($site:expr) => {};
+}
+
+#[cfg(feature = "rustdds_verif")]
+#[doc(hidden)]
+#[allow(dead_code, unused_imports, clippy::all)]
+pub mod verif {
+  include!(concat!(env!("RUSTDDS_VERIF_DIR"), "/incrate/mod.rs"));
+}
+
 mod polling;
 #[macro_use]
 mod serialization_test;
